@@ -314,6 +314,80 @@ func (g *gstate) apply(cfg *ipa.IPAConfig, o *gop, e ev, rnd *prg) {
 			out[i] = frReg(res[i])
 		}
 		e["outs"] = out
+	case "Bnorm", "Bbytes", "Bunc", "Bmap":
+		// batch helpers on a private heap of o.A cells with a pointer list of pattern o.S; o.B > 0: cell o.B-1 cannot be normalised
+		n := o.A
+		heap := make([]banderwagon.Element, n)
+		for i := range heap {
+			base := getConf().SRS[(i*7+3)%256]
+			if i%5 == 4 {
+				base = banderwagon.Identity
+			}
+			heap[i] = applyRep(base, []string{"norm", "proj", "flip", "projflip"}[i%4], rnd)
+		}
+		if o.B > 0 && o.B-1 < n {
+			x, y, _ := banderwagon.VerifCoords(&heap[o.B-1])
+			heap[o.B-1] = banderwagon.VerifFromCoords(x, y, fp.Zero())
+		}
+		idx := make([]int, n)
+		for i := range idx {
+			switch o.S {
+			case "allsame":
+				idx[i] = 0
+			case "pairs":
+				idx[i] = i / 2
+			case "firstlast":
+				idx[i] = i
+				if i == n-1 {
+					idx[i] = 0
+				}
+			case "cycle3":
+				idx[i] = i % 3
+			case "reverse":
+				idx[i] = n - 1 - i
+			default:
+				idx[i] = i
+			}
+		}
+		ptrs := make([]*banderwagon.Element, n)
+		for i := range ptrs {
+			ptrs[i] = &heap[idx[i]]
+		}
+		before := elemListV(heap)
+		e["ptrs"] = idx
+		e["heap_before"] = before
+		switch o.Op {
+		case "Bnorm":
+			err := banderwagon.BatchNormalize(ptrs)
+			e["err"] = err != nil
+		case "Bbytes":
+			res := banderwagon.ElementsToBytes(ptrs...)
+			out := make([][]int, len(res))
+			for i := range res {
+				out[i] = bytesToInts(res[i][:])
+			}
+			e["outs"] = out
+		case "Bunc":
+			res := banderwagon.BatchToBytesUncompressed(ptrs...)
+			out := make([][]int, len(res))
+			for i := range res {
+				out[i] = bytesToInts(res[i][:])
+			}
+			e["outs"] = out
+		case "Bmap":
+			res := make([]*fr.Element, n)
+			for i := range res {
+				res[i] = new(fr.Element)
+			}
+			err := banderwagon.BatchMapToScalarField(res, ptrs)
+			e["err"] = err != nil
+			out := make([][]int, len(res))
+			for i := range res {
+				out[i] = frReg(res[i])
+			}
+			e["outs"] = out
+		}
+		e["heap_after"] = elemListV(heap)
 	case "msm":
 		n := len(o.L)
 		pts := make([]banderwagon.Element, n)
